@@ -173,6 +173,11 @@ class XGen:
                 rid = self.add_rel(name if self.maybe(0.8) else "/word/" + name,
                                    "http://schemas.openxmlformats.org/officeDocument/2006/relationships/image")
                 blip = X("a:blip", {"r:embed": rid})
+                if self.maybe(0.15):
+                    # "linked and embedded": both attributes; the embedded part is the image
+                    tgt = "http://example.invalid/also%d.png" % len(self.pkg.linked) if self.maybe(0.5) else "also%d.png" % len(self.pkg.linked)
+                    self.pkg.linked[tgt] = ("data", bytes(reversed(data)) + b"L")
+                    blip.attributes["r:link"] = self.add_rel(tgt, "http://schemas.openxmlformats.org/officeDocument/2006/relationships/image")
         if k > 0.9:
             rid = blip.attributes.get("r:embed")
             if rid is not None:
@@ -271,7 +276,7 @@ class XGen:
                 attrs = {}
                 kind = r.choice(["rid", "anchor", "both", "none"])
                 if kind in ("rid", "both"):
-                    attrs["r:id"] = self.add_rel(r.choice(["http://example.com/", "http://example.com/a?b=1&c=2#frag", 'http://e.com/"q"']),
+                    attrs["r:id"] = self.add_rel(r.choice(["http://example.com/", "http://example.com/a?b=1&c=2#frag", 'http://e.com/"q"', "http://example.com/p#one#two", "#top", "doc2.docx#a#b"]),
                                                  "http://schemas.openxmlformats.org/officeDocument/2006/relationships/hyperlink")
                 if kind in ("anchor", "both"):
                     attrs["w:anchor"] = r.choice(["bm1", "bm2", 'x"y'])
@@ -296,7 +301,8 @@ class XGen:
                     out.append(X("w:sdt", {}, [X("w:sdtPr", {}, [X("wordml:checkbox", {}, [X("wordml:checked", {"wordml:val": r.choice(["0", "1"])})] if self.maybe(0.7) else [])]),
                                               X("w:sdtContent", {}, [self.run(depth)])]))
                 else:
-                    out.append(X("w:sdt", {}, ([X("w:sdtPr")] if self.maybe(0.5) else []) + [X("w:sdtContent", {}, [self.run(depth)])]))
+                    # every child of w:sdt is optional in the schema, w:sdtContent included
+                    out.append(X("w:sdt", {}, ([X("w:sdtPr")] if self.maybe(0.5) else []) + ([X("w:sdtContent", {}, [self.run(depth)])] if self.maybe(0.85) else [])))
             elif k < 0.97 and self.maybe(self.anomalies + 0.3):
                 out.append(X(r.choice(IGNORED)))
             else:
@@ -327,7 +333,8 @@ class XGen:
                     pr.append(X("w:vMerge", {"w:val": "continue"} if self.maybe(0.5) else {}))
                 content = [X("w:p")] if kind == "continue" else self.blocks(depth + 1, r.choice([1, 1, 2]))
                 tcs.append(X("w:tc", {}, ([X("w:tcPr", {}, pr)] if pr or self.maybe(0.5) else []) + content))
-            trpr = [X("w:trPr", {}, [X("w:tblHeader")])] if i < nhead else ([X("w:trPr")] if self.maybe(0.2) else [])
+            noise = [X("w:cantSplit"), X("w:trHeight", {"w:val": "300"})] if self.maybe(0.2) else []
+            trpr = [X("w:trPr", {}, noise[:1] + [X("w:tblHeader")] + noise[1:])] if i < nhead else ([X("w:trPr", {}, noise)] if self.maybe(0.2) or noise else [])
             trs.append(X("w:tr", {}, trpr + tcs))
         tblpr = []
         if self.maybe(0.4):
@@ -352,7 +359,7 @@ class XGen:
             elif k < 0.30 and self.maybe(self.alt_no_fallback):
                 out.append(X("mc:AlternateContent", {}, [X("mc:Choice", {"Requires": "wps"}, [self.paragraph(depth)])]))
             elif k < 0.33:
-                out.append(X("w:sdt", {}, [X("w:sdtContent", {}, [self.paragraph(depth)])]))
+                out.append(X("w:sdt", {}, [X("w:sdtContent", {}, [self.paragraph(depth)])] if self.maybe(0.85) else [X("w:sdtPr")]))
             else:
                 out.append(self.paragraph(depth))
         # a deleted paragraph must be followed by a paragraph in the same container
